@@ -463,7 +463,7 @@ func runC17(c *Ctx, r *Report) {
 	r.Doc("R-C17.6", "on the write path every error result is examined before it is overwritten: a failed encode, sign or block write is never followed by a success return")
 	r.Doc("R-C17.7", "a manifest or head hash that was returned loads to the log it was produced from: the manifest carries the log's id and heads, the loaders hand id, entries and heads of what they read to the rebuilt log, and nothing is trimmed without a non-negative limit (adopted from C09)")
 	importRules(c, r, "C09", []string{"R-C09.1", "R-C09.2", "R-C09.5"}, "R-C17.7")
-	importRules(c, r, "C10", []string{"R-C10.1"}, "R-C17.7")
+	importRules(c, r, "C10", []string{"R-C10.1", "R-C10.13"}, "R-C17.7")
 	errDiscipline(c, r, "R-C17.6", func(fn *Fn) bool {
 		return rootNamed(fn, "Write", "CreateEntryWithIO", "CreateEntry", "ToMultihashWithIO", "ToMultihash", "toMultihash", "Append", "WriteCBOR")
 	}, "the operation reports success (and hands out an identifier) although a step of writing the block failed", deliberateDiscards)
